@@ -184,7 +184,7 @@ func genCase(r *hlib.Rand, profile string, emit func(string, ...any)) int {
 		switch profile {
 		case "C10":
 			if k < 30 {
-				k = 40 + r.Intn(10) // replays
+				k = 40 + r.Intn(18) // replays, rotation, older messages
 			}
 		case "C32":
 			if k < 40 {
